@@ -53,6 +53,7 @@ class Spliced:
         self.anchors = []      # dict(file, fn, line)
         self.repo_lines = 0
         self.body_starts = []  # (generated line number of the line holding a hosted body's opening brace, label)
+        self.shapes = {}       # label -> loop keywords of the hosted repo body that carries loop clauses (invariants)
         self.lost = []         # dict(label, reason): labelled regions whose hosted text could not be produced (stubbed, undecided)
 
     def emit(self, text, origin):
@@ -200,6 +201,8 @@ def splice(tmpl_path, repo_root, stub_labels=None):
                 # loop clauses (insert from the last loop backwards so positions stay valid)
                 if loops:
                     found = find_loops(body)
+                    if cur:
+                        out.shapes[cur['label']] = out.shapes.get(cur['label'], []) + [kw for _, _, kw in found]
                     for n in sorted(loops, reverse=True):
                         if n > len(found):
                             raise LostAnchor('loop %d of %s not found (body has %d loops)' % (n, a['fn'], len(found)))
@@ -314,4 +317,4 @@ def write_unit(sp, out_rs):
         f.write('\n'.join(sp.lines) + '\n')
     with open(out_rs + '.map.json', 'w') as f:
         json.dump(dict(origin=sp.origin, regions=sp.regions, rewrites=sp.rewrites, anchors=sp.anchors,
-                       repo_lines=sp.repo_lines, lost=sp.lost), f)
+                       repo_lines=sp.repo_lines, lost=sp.lost, shapes=sp.shapes), f)
